@@ -10,7 +10,7 @@ CHECKS = {
             "Every labelled multigraph of the stated families (parallel edges, self loops, dead ends, disconnected parts) is searched with Dijkstra, A* (admissible and inadmissible weight factors), single-via KSP, forward and reverse, vertex- and edge-oriented over every ordered pair of distinct edges; every returned route and tree is checked against the contiguity / rooted-tree clauses. Yen's routes are put through the same clauses inside the sandboxed C13 check.",
             "Trusted: clause checkers in props/search_common.rs. Reverse direction only for vertex orientation (no repository entry point issues an edge-oriented reverse search). Hash order only breaks ties.", "§4.1"),
     "C02": ("E1", "bounded-exhaustive enumeration of multigraphs x unit/weight/rate/surcharge configurations on the real search vs Bellman-Ford over reference edge costs",
-            "For every enumerated network and configuration the total cost of routes[0] is compared with the Bellman-Ford minimum over independently computed reference edge costs (intended weights, rates, physical units); Dijkstra everywhere, A* (wf<=1) on metric networks, forward and reverse, vertex and edge orientation; a SearchApp layer checks that weights/rates given in the query replace the configured ones.",
+            "For every enumerated network and configuration the total cost of routes[0] is compared with the Bellman-Ford minimum over independently computed reference edge costs (intended weights, rates, physical units); Dijkstra everywhere, A* (wf<=1) on metric networks (3x3 lattice geometry and an unevenly spaced line on the equator, where a heuristic taken at the wrong end of an edge changes the answer), forward and reverse, vertex and edge orientation; a SearchApp layer checks that weights/rates given in the query replace the configured ones.",
             "Trusted: refmodel (Bellman-Ford, unit factors). Tolerance 1e-8 in base units, 3e-3 where the repository's unit tables (good to ~2e-4) intervene.", "§4.2"),
     "C03": ("E1", "bounded-exhaustive enumeration of multigraphs x speed/heading/delay/unit/initial-state configurations; every returned route walked against reference accumulation",
             "Every route returned by Dijkstra, A*, single-via KSP (incl. the re-oriented reverse half), both directions and orientations, is walked edge by edge: reported state = reference accumulation of length, length/speed and classified turn delay in the configured units, each edge's cost = weighted rated change of the reported state, monotone distance/time, declared initial state.",
@@ -34,22 +34,22 @@ CHECKS = {
             "Every ordered unit pair of all six families and every constructor unit triple is executed on the implementation and compared with SI factors, linearity, identity and round-trip laws; the pair space is finite and covered completely.",
             "Trusted: reference factors in harness/src/refmodel/units.rs; magnitudes outside the alphabet follow from linearity of constant-factor tables.", "§4.9"),
     "C10": ("E1", "bounded-exhaustive enumeration of tie-free multigraphs x every limit value 0..N+3 of every limit kind on the real search, work observed through a recording frontier model",
-            "For every tie-free network the unlimited search is compared with the same search under every iteration / solution-size / combined limit value from 0 to beyond what it needed, generous runtime budgets (frequency 1/2/5) and exhausted ones (2 ms limit, 3 ms sleep inside the k-th traversal): observed expansions <= limit, labelled vertices <= limit + max degree, terminated error names the limit, any returned result identical to the unlimited one, success monotone, stop at the next scheduled check.",
+            "For every tie-free network the unlimited search is compared with the same search under every iteration / solution-size / combined limit value from 0 to beyond what it needed, generous runtime budgets (frequency 1/2/5) and exhausted ones (2 ms limit, 3 ms sleep inside the k-th traversal): observed expansions <= limit, labelled vertices <= limit + max degree, terminated error names the limit, any returned result identical to the unlimited one, success monotone, stop at the next scheduled check. Yen's algorithm (whose spur searches run under the same limits) is swept inside sandbox worker processes over a path+detour family: a result under a limit is identical to the unlimited one or a terminated error, never a shorter list of routes.",
             "Trusted: recording frontier/traversal wrappers (harness). Expansions of vertices without incident edges are invisible (lower bound, cannot false-alarm). KSP: result-level clauses only.", "§4.10"),
     "C11": ("E2+E1", "explicit-state breadth-first search over insert histories applied to live CompactOrderedHashMap objects vs Vec<(K,V)> reference; bounded-exhaustive feature-set enumeration for the state model",
             "All ordered key lists over 7 (quick) / 8 (thorough) keys are reached by BFS from the empty map (13 700 / 109 601 states), every insert/overwrite transition is executed on a live clone and the whole public API compared with the reference; constructors new/collect/from for every distinct-key list and every duplicate-key list, followed by 1-2 further inserts; state models of 0..8(9) features over 16 feature kinds through new/extend/TryFrom/SearchApp::build_search_instance with slot-bijection, initial-state and get/set/add round-trip clauses.",
             "Trusted: Vec<(K,V)> reference; dedup on key order justified by parametricity in V (values are still compared on the concrete path). IndexedEntry observed through Debug.", "§4.11"),
     "C12": ("E1", "deviation-bounded exhaustive enumeration of malformed batches (all 0/1/2-deviation neighbours of valid queries + structural specials) on the real CompassApp::run inside sandbox worker processes",
-            "14 application configurations (plain, speed table, grid search, vertex/edge matching, load balancer, inject, energy model, both KSP algorithms, combined frontier) x the empty batch, every valid query, every single deviation (field removed or replaced by each of 9 deviant values, every field the configuration reads), every pair of deviations (thorough), structural specials, each alone and before/after a valid query: the worker must not panic, abort, exhaust memory or exceed the deadline; run returns Ok; one well-formed response per query echoing its request; unanswerable queries get an error response; the valid neighbour is served as if alone.",
+            "14 application configurations (plain, speed table, grid search, vertex/edge matching, load balancer, inject, energy model, both KSP algorithms, combined frontier) x the empty batch, every valid query, every single deviation (field removed or replaced by each of the deviant values incl. coordinates beyond f32 range, every field the configuration reads), every pair of deviations (thorough), structural specials, each alone and before/after a valid query: the worker must not panic, abort, exhaust memory or exceed the deadline; run returns Ok; one well-formed response per query echoing its request; unanswerable queries get an error response; the valid neighbour is served as if alone.",
             "Trusted: sandbox classification (timeout re-run alone with 4x deadline; RLIMIT_AS). 'Every JSON value' approximated by <=2-deviation neighbours over a 9-value alphabet.", "§4.12"),
     "C13": ("E1", "bounded-exhaustive enumeration of multigraphs x KSP configurations on the real k-shortest-paths code inside sandbox worker processes with per-case deadlines",
             "Every enumerated network x {single-via, Yen} x k x similarity x termination criterion x underlying search (k from configuration or query): 1..k routes when reachable, first is least cost (Bellman-Ford), every route passes the C01 structure clauses, is loop free and passes the C03 accumulation oracle, pairwise distinct, pairwise below the similarity threshold (reference cosine), accept-all >= any threshold, terminates within the deadline, never an error for an answerable query.",
             "Trusted: sandbox classification of hangs; reference similarity. Yen's quick tier uses a covering half of its configuration product (its hanging cases cost a full timeout each).", "§4.13"),
     "C14": ("E1", "bounded-exhaustive enumeration of grids x multilinear data x point lattices on the real interpolators; bundled models x grids x lattices on the interpolated powertrain model vs the separately loaded underlying model",
-            "(a) uniform and non-uniform axes (2-4 knots), dimensions 1,2,3 and N=2..4, every multilinear coefficient combination (covering subset for N>=3), lattice of knots / midpoints / quarter points / bounds / bounds+-1e-9 / far outside: equality inside, agreement fixed-D vs N-D also on non-multilinear data, Err outside. (b) 6 (quick) / 45 (thorough) bundled random forests x 2-4 grids: prediction within min/max of the four surrounding underlying values, equality at grid points, continuity across grid lines, outside = nearest boundary, 3x3 input units.",
+            "(a) uniform and non-uniform axes (2-4 knots, and linspace grids whose accumulated last knot falls short of the nominal bound), dimensions 1,2,3 and N=2..4, every multilinear coefficient combination (covering subset for N>=3), lattice of knots / midpoints / quarter points / bounds / bounds+-1e-9 / far outside: equality inside, agreement fixed-D vs N-D also on non-multilinear data, Err outside. (b) 6 (quick) / 45 (thorough) bundled random forests x 2-4 grids: prediction within min/max of the four surrounding underlying values, equality at grid points, continuity across grid lines, outside = nearest boundary, 3x3 input units.",
             "Trusted: smartcore model loaded separately as the oracle; grid coordinates from the repository's own linspace.", "§4.14"),
     "C15": ("E1", "bounded-exhaustive enumeration of edge/vertex lists x file variants loaded by the real loaders vs the lists themselves",
-            "All G(3,m,2) multigraphs with self loops, stars and hubs with in/out degree 0..8 and isolated vertices are written as plain and gzip CSV in all 6 vertex column orders, with extra columns, with explicit or scanned counts, loaded through Graph::from_files and DefaultGraphBuilder and compared accessor by accessor (counts, edges by id, vertices, out/in edge sets, triplets, forward = reverse view); per-edge tables (speed, grade, class, heading) row-aligned; bindings accessors.",
+            "All G(3,m,2) multigraphs with self loops, stars and hubs with in/out degree 0..8 and isolated vertices are written as plain and gzip CSV in all 6 vertex column orders, with extra columns, with explicit or scanned counts, with and without a trailing newline, loaded through Graph::from_files and DefaultGraphBuilder and compared accessor by accessor (counts, edges by id, vertices, out/in edge sets, triplets, forward = reverse view); per-edge tables (speed, grade, class, heading) row-aligned; bindings accessors.",
             "Trusted: the lists the files were written from. Coordinates written as shortest f32 decimal so comparison is exact.", "§4.15"),
     "C16": ("E1", "bounded-exhaustive enumeration of lattice vertex/edge sets x query lattice x tolerances x filters on the real matching plugins vs exhaustive scan",
             "All 255 vertex subsets (size 1-4) of a 3x3 lattice and 6 edge sets x 52 query points (inside, on, beyond the network, far away) x 17 tolerances (none; 100/700/1300/5000 m in 4 units) x 6 road-class/vehicle filters: the matched id is in the argmin of the plugin's own measure over admissible candidates, beyond tolerance is an error, within tolerance always matches, all other query fields unchanged.",
@@ -61,7 +61,7 @@ CHECKS = {
             "(a) K one-thread worker pools each run the real run_batch_with_responses / run_batch_without_responses against one shared ResponseSink (JSON lines and CSV, flush rate 1/2, both persistence policies, successes and errors of different sizes): all schedules of the 2x2 scenarios (2 630 - 3 864 each, no bound), 3-task scenarios up to preemption bound 2-3 (quick) / 3-5 (thorough); oracle on the final file: one terminated record per response, every JSON line parses, multiset of records = responses produced, CSV single header + rows per mapping in header order, no deadlock; all 6 (60) file orders observed. (b) histories of 1-2(3) runs appending to one file x 4 formats x persistence x parallelism: single header, rows accumulate, returned responses keep their information, input-plugin failures are written.",
             "Trusted: same as C06 (c). Replaying a prefix must reproduce the same (task,event) sequence or the run aborts as a machinery error; violating schedules are replayed twice by the replay command.", "§4.19"),
     "C20": ("E1", "bounded-exhaustive enumeration of routes/trees x geometry tables x 5 output formats through the real output plugins vs edge sequence and stored geometries",
-            "Every enumerated network with a route is rendered through the real summary / traversal / uuid plugins in edge_id, json, geo_json, wkt and wkb (single routes and several KSP routes, trees, full geometry table and a table one row short): ids and per-edge records follow the returned edge sequence, geometry = concatenation of stored geometries in order, a missing geometry is an error response, one tree entry per branch, uuids of the matched vertices, summary = last state; plus an application-level pass per format.",
+            "Every enumerated network with a route is rendered through the real summary / traversal / uuid plugins in edge_id, json, geo_json, wkt and wkb (single routes and several KSP routes, trees, full geometry table and a table one row short, the latter also with the route rendering alone and the tree rendering alone so that one cannot mask the other): ids and per-edge records follow the returned edge sequence, geometry = concatenation of stored geometries in order, a missing geometry is an error response, one tree entry per branch, uuids of the matched vertices, summary = last state; plus an application-level pass per format.",
             "Trusted: WKT parser in the harness, wkb crate for decoding; coordinates compared at 1e-6.", "§4.20"),
     "C18": ("E1", "exhaustive enumeration of all digraphs up to n vertices on the real code vs Floyd-Warshall reference",
             "All 2^(n^2) digraphs with self loops for n<=4 (quick) / n<=5 (thorough), all multiplicity<=2 multigraphs on 3 vertices and structured families up to 60 vertices are run through the real component analysis and compared with mutual-reachability classes.",
